@@ -778,6 +778,38 @@ impl<'ast> Visit<'ast> for LoopFinder {
                 }
             }
         }
+        // D69: X.iter().enumerate().filter(|(I, _)| C).fold(INIT, |ACC, ITEM| E)
+        if e.method == "fold" && e.args.len() == 2 {
+            if let (syn::Expr::Closure(cf2), syn::Expr::MethodCall(fl)) = (&e.args[1], &*e.receiver) {
+                if fl.method == "filter" && fl.args.len() == 1 && cf2.inputs.len() == 2 {
+                    if let (syn::Expr::Closure(cf), syn::Expr::MethodCall(en)) = (&fl.args[0], &*fl.receiver) {
+                        if en.method == "enumerate" && en.args.is_empty() && cf.inputs.len() == 1 {
+                            if let syn::Expr::MethodCall(it) = &*en.receiver {
+                                if it.method == "iter" && it.args.is_empty() && matches!(&cf.inputs[0], syn::Pat::Tuple(t) if t.elems.len() == 2) {
+                                    let mut ef = EscapeFinder::default();
+                                    ef.visit_expr(&cf.body);
+                                    ef.visit_expr(&cf2.body);
+                                    if ef.escapes == 0 {
+                                        let call = e.span().byte_range();
+                                        let recv = it.receiver.span().byte_range();
+                                        let init = e.args[0].span().byte_range();
+                                        let fpat = cf.inputs[0].span().byte_range();
+                                        let fbody = cf.body.span().byte_range();
+                                        let acc = cf2.inputs[0].span().byte_range();
+                                        let item = cf2.inputs[1].span().byte_range();
+                                        let body = cf2.body.span().byte_range();
+                                        self.vd.push(format!(
+                                            "{{\"rule\":\"D69\",\"call\":[{},{}],\"recv\":[{},{}],\"init\":[{},{}],\"fpat\":[{},{}],\"fbody\":[{},{}],\"acc\":[{},{}],\"item\":[{},{}],\"body\":[{},{}]}}",
+                                            call.start, call.end, recv.start, recv.end, init.start, init.end, fpat.start, fpat.end, fbody.start, fbody.end, acc.start, acc.end, item.start, item.end, body.start, body.end
+                                        ));
+                                    }
+                                }
+                            }
+                        }
+                    }
+                }
+            }
+        }
         // D65: BUF.extend(X.iter().enumerate().map(|(I, P)| BODY))
         if e.method == "extend" && e.args.len() == 1 {
             if let syn::Expr::MethodCall(mp) = &e.args[0] {
